@@ -109,6 +109,7 @@ def showErr : Err → String
   | .indexError => "IndexError"
   | .attributeError => "AttributeError"
   | .keyError => "KeyError"
+  | .typeError => "TypeError"
 
 /-- refusal of a reaction LINE by the text reader (C12's model `ReactionText.toRaw`, i.e. `to_reaction` up to the constructor):
     `ok`, `ValueError` (missing arrow, too many parts in a term, unknown substance key, bad number) or `!unmodelled` -/
